@@ -954,8 +954,48 @@ def c04_history(model, meta):
         cached = {}                    # reference: pid -> (obj, tick) expected in the cache
         pending_reused = set()         # PIDs found recycled by is_running() since the last pass
         known = []                     # occurrences of the recorded finding C04-reused-skip
+        stale = {}                     # id(obj) -> obj: objects whose is_running() found their PID recycled
+        held = None                    # an iterator that is in flight while other things happen: (gen, listed at start)
+        consumed_while_held = set()    # PIDs whose "recycled" verdict was used up by a pass that ran while `held` was open
+        republished = {}               # id(obj) -> obj: stale entries an older iterator put back (recorded finding)
+        known2 = []
         for ev in events:
             kind = ev[0]
+            if kind == "iter_hold" and held is None:
+                gen = psutil.process_iter()
+                held = (gen, sorted(tb.procs))
+                for _ in range(ev[1]):
+                    try:
+                        p = next(gen)
+                    except StopIteration:
+                        break
+                    if not any(h[0] is p for h in handles):
+                        handles.append((p, p.pid, tb.procs.get(p.pid)))
+                continue
+            if kind == "iter_resume" and held is not None:
+                gen, at_start = held
+                held = None
+                rest = list(gen)
+                if [p.pid for p in rest] != sorted(p.pid for p in rest) or not set(p.pid for p in rest) <= set(at_start):
+                    problems.append(f"resumed iterator yielded {[p.pid for p in rest]} (listed when it started: {at_start})")
+                for p in rest:
+                    if not any(h[0] is p for h in handles):
+                        handles.append((p, p.pid, tb.procs.get(p.pid)))
+                # the finished iterator publishes its private map: the reference follows the real cache, keeping for each
+                # object the process it was created for
+                cached = {}
+                for pid_, obj_ in psutil._pmap.items():
+                    ticks = [t for (o, _p, t) in handles if o is obj_]
+                    if ticks:
+                        cached[pid_] = (obj_, ticks[0])
+                    if id(obj_) in stale and pid_ in consumed_while_held:
+                        # recorded finding C04-older-iterator-republishes: the verdict was recorded, a newer pass used it
+                        # up, and this older iterator now overwrites the cache with its private copy
+                        republished[id(obj_)] = obj_
+                consumed_while_held.clear()
+                continue
+            if kind in ("iter_hold", "iter_resume"):
+                continue
             if kind in ("spawn", "exit", "reuse"):
                 getattr(tb, kind)(ev[1])
             elif kind == "proc":
@@ -982,8 +1022,11 @@ def c04_history(model, meta):
                         # under it (recorded finding C04-reused-skip covers the skipped pass)
                         pending_reused.add(pid)
                         cached.pop(pid, None)
+                        stale[id(obj)] = obj
             elif kind in ("iter", "iter_partial", "iter_attrs"):
                 attrs = ["pid", "name"] if kind == "iter_attrs" else None
+                if held is not None:
+                    consumed_while_held |= set(psutil._pids_reused)
                 gen = psutil.process_iter(attrs)
                 got = []
                 limit = ev[1] if kind == "iter_partial" else 10 ** 6
@@ -1011,6 +1054,14 @@ def c04_history(model, meta):
                 if kind != "iter_partial" or True:
                     pending_reused -= set(pids) | skipped
                 for p in got:
+                    if id(p) in republished:
+                        known2.append(f"{kind}: stale entry for pid {p.pid} put back by an older iterator that finished after a "
+                                      f"newer pass had used up the verdict")
+                    elif id(p) in stale and held is None:
+                        # "an entry whose PID was found recycled by is_running() is replaced by a fresh object": this pass
+                        # started after the verdict, whichever iterator the object came from
+                        problems.append(f"{kind}: the object is_running() found recycled is still yielded for pid {p.pid}")
+                for p in got:
                     tick = tb.procs.get(p.pid)
                     if kind == "iter_attrs" and set(getattr(p, "info", {})) != {"pid", "name"}:
                         problems.append(f"info keys {sorted(getattr(p, 'info', {}))} != ['name', 'pid']")
@@ -1033,7 +1084,7 @@ def c04_history(model, meta):
                     for pid in list(cached):
                         if pid not in tb.procs:
                             del cached[pid]
-                    if set(psutil._pmap) != set(listed) - skipped:
+                    if held is None and set(psutil._pmap) != set(listed) - skipped:
                         problems.append(f"cache holds {sorted(psutil._pmap)} after a full pass over {listed}")
         # at the end: handles of live processes answer True, the others False
         for obj, pid, tick in handles:
@@ -1055,7 +1106,10 @@ def c04_history(model, meta):
         # C02 only speaks about is_running() answers along the history
         problems = [p for p in problems if "is_running()" in p]
         known = []
-    if not problems and known:
+    if not problems and known2:
+        problems = known2
+        tag = "stale-entry-republished-by-older-iterator"
+    elif not problems and known:
         problems = known
         tag = "reused-pid-skipped-one-pass"
     return {"env": {}, "result": problems[:4], "exc": None, "verdict": bool(problems), "events": events, "tag": tag}
@@ -1076,6 +1130,13 @@ C04_LONG = [
     [("spawn", 3), ("iter",), ("reuse", 3), ("isrun",), ("iter",), ("iter",), ("isrun",), ("iter",), ("iter",), ("iter",)],
     [("spawn", 2), ("iter",), ("reuse", 2), ("isrun",), ("iter",), ("iter",), ("reuse", 2), ("isrun",), ("iter",), ("iter",),
      ("iter",), ("iter",)],
+    # a partially consumed iterator in flight while a PID it handed out is recycled and found so by is_running()
+    [("spawn", 2), ("spawn", 3), ("iter_hold", 2), ("reuse", 2), ("isrun",), ("iter_resume",), ("iter",), ("iter",), ("iter",)],
+    [("spawn", 2), ("iter",), ("spawn", 3), ("iter_hold", 3), ("reuse", 3), ("isrun",), ("iter_resume",), ("iter",), ("iter",),
+     ("iter",)],
+    [("spawn", 2), ("spawn", 3), ("iter_hold", 3), ("reuse", 3), ("isrun",), ("iter",), ("iter_resume",), ("iter",), ("iter",),
+     ("iter",)],
+    [("spawn", 2), ("iter_hold", 1), ("exit", 2), ("iter_resume",), ("iter",), ("spawn", 2), ("iter",), ("isrun",)],
 ]
 
 
@@ -1097,7 +1158,12 @@ def c04_history_search(meta, seed, budget):
                 return
     rng = random.Random(seed)
     while n < budget:
-        yield {"events": [list(rng.choice(C04_EVENTS)) for _ in range(rng.randrange(4, 8))] + [["iter"]]}
+        evs = [list(rng.choice(C04_EVENTS)) for _ in range(rng.randrange(4, 8))]
+        if n % 3 == 0:          # an iterator in flight across part of the history
+            i = rng.randrange(0, len(evs))
+            j = rng.randrange(i, len(evs)) + 1
+            evs = evs[:i] + [["iter_hold", rng.randrange(1, 4)]] + evs[i:j] + [["iter_resume"]] + evs[j:] + [["iter"]]
+        yield {"events": evs + [["iter"]]}
         n += 1
 
 
@@ -2759,6 +2825,22 @@ def _avail_reference(mems, lows, zone_ok):
     avail += pagecache
     avail += sr - min(sr / 2.0, w)
     return int(avail)
+
+
+@search("c08:swap_memory")
+def c08_swap_search(meta, seed, budget):
+    """small vmstat files: the pswpin / pswpout lines in either order, one or both absent, zero and non-zero counts"""
+    import itertools
+    n = 0
+    for (iin, iout), vin, vout, swap_keys in itertools.product(
+            [(0, 1), (1, 0), (0, 2), (2, 0), (-1, 0), (0, -1), (-1, -1), (1, 3)], (0, 1, 7), (0, 1, 9), (True, False)):
+        m = {"iin": iin, "iout": iout, "vin": vin, "vout": vout, "si_total": 5, "si_free": 2, "si_unit": 4096,
+             "has_SwapTotal": swap_keys, "val_SwapTotal": 8 * 1024 * 1024, "has_SwapFree": swap_keys,
+             "val_SwapFree": 3 * 1024 * 1024}
+        yield m
+        n += 1
+        if n >= budget:
+            return
 
 
 @runner("c08:avail")
